@@ -280,7 +280,12 @@ func init() {
 	registerCheck(&CheckDef{Prop: "C10", Level: "model_checking", Technique: tE1,
 		Quick:       []Run{{Scenario: "lifecycle", Depth: 7, MapModes: []int{1}}, {Scenario: "gang-life-Soft", Depth: 6, MapModes: []int{1}}, {Scenario: "gang-life-Hard", Depth: 6, MapModes: []int{1}}, {Scenario: "lifecycle-late", Depth: 8, MapModes: []int{1}}},
 		Thorough:    []Run{{Scenario: "lifecycle-late", Depth: 11, MapModes: []int{1}}, {Scenario: "lifecycle", Depth: 9, MapModes: []int{1, 2}}, {Scenario: "gang-life-Soft", Depth: 8, MapModes: []int{1}}, {Scenario: "gang-life-Hard", Depth: 8, MapModes: []int{1}}},
-		QuickBudget: 150 * time.Second, ThoroughBudget: 12 * time.Minute})
+		QuickBudget: 150 * time.Second, ThoroughBudget: 12 * time.Minute,
+		// the timers, the RM event handler and the scheduling loop are different goroutines: life-cycle rules over all their
+		// interleavings (completing timer || new ask, restart from Completing, expired cleanup, Hard gang timeout)
+		Also: c14Part("C10", "c10ilv", "final-state-C10-", func(n string) bool {
+			return strings.HasPrefix(n, "S15-") || strings.HasPrefix(n, "S16-") || strings.HasPrefix(n, "S21-") || strings.HasPrefix(n, "S22-") || strings.HasPrefix(n, "S24-")
+		}), Replay: replayC14})
 	registerCheck(&CheckDef{Prop: "C11", Level: "model_checking", Technique: tE1,
 		Quick:       []Run{{Scenario: "maxapps", Depth: 7, MapModes: []int{1}}, {Scenario: "maxapps-restart", Depth: 8, MapModes: []int{1}}},
 		Thorough:    []Run{{Scenario: "maxapps-restart", Depth: 11, MapModes: []int{1}}, {Scenario: "maxapps", Depth: 9, MapModes: []int{1, 2}}},
